@@ -24,6 +24,10 @@ def main():
     out["fit"] = digest(np.concatenate([np.asarray(v, dtype=float).reshape(-1) for _, v in sorted(model.parameters.items())]))
     ip = model.personalize(data, "mean_posterior", n_iter=5, seed=4, progress_bar=False).to_dataframe()
     out["personalize"] = digest(ip.sort_index().values)
+    ip2 = model.personalize(data, "scipy_minimize", seed=4, progress_bar=False).to_dataframe()
+    out["personalize_scipy"] = digest(ip2.sort_index().values)
+    ip3 = model.personalize(data, "mode_posterior", n_iter=5, seed=4, progress_bar=False).to_dataframe()
+    out["personalize_mode"] = digest(ip3.sort_index().values)
     visits = pd.DataFrame({"ID": ["pat-b", "pat-b", "zed", "abe", "abe", "abe", "k9"], "TIME": [70.0, 72.5, 66.0, 61.0, 63.0, 68.25, 75.0]})
     feats = list(model.features)
     res = model.simulate(algorithm="simulate", features=feats, visit_parameters={"visit_type": "dataframe", "df_visits": visits}, seed=5)
